@@ -22,6 +22,8 @@ PAIRS = [
     (5, 0, "clock", "rd"), (6, 0, "clock", "r"), (7, 6, "clock", "rd"),
     (8, 0, "rerun", "rd"),
     (9, 1, "restore", "rd"), (10, 1, "restore", "rd"),
+    # entries of the cluster syncer (conflict pre-check when applied live)
+    (17, 16, "syncer-replay", "rd"), (16, 18, "syncer-batching", "rd"),
     # local-deletion policy, the node-local expiry sweep run in the middle of the log:
     (12, 14, "localexpiry", "rd"),    # log years AFTER the node's clock: nothing is past expiry, nothing may change
     (13, 15, "localexpiry", "u"),     # log years BEFORE the node's clock: equal up to the keys that ever had a TTL
@@ -176,6 +178,8 @@ def judge(logs, order, obs, pairs=None):
 
 BATCHABLE = ("set", "setex", "del", "hmset")
 SIG_ABORT = "batching: a batchable command that fails at apply aborts the whole batch (AbortBatchForError)"
+SIG_SYNCER_REPLAY = ("syncer-replay: entries from the cluster syncer are conflict-checked (and possibly ignored) when applied "
+                     "live but applied unconditionally when replayed")
 SIG_HLL = ("restore: HyperLogLog write-back cache (pfadd reaches the engine only when the cache is flushed: "
            "checkpoint, restart, eviction)")
 
@@ -186,6 +190,8 @@ def signature_of(dim, kind, shrunk_names, policy, observed=None):
     names = set(shrunk_names)
     if dim == "restore" and "pfadd" in names:
         return SIG_HLL
+    if dim == "syncer-replay":
+        return SIG_SYNCER_REPLAY
     if dim == "batching" and observed:
         # a batchable command that replies an error when applied alone, and another request whose
         # reply changes when they are delivered together
@@ -484,6 +490,9 @@ def dim_of(va, vb):
         return "restore"
     if a[6] != b[6]:
         return "localexpiry"
+    sa, sb = (a[8] if len(a) > 8 else "-"), (b[8] if len(b) > 8 else "-")
+    if "s" in sa and "s" in sb:
+        return "syncer-replay" if a[3] != b[3] else "syncer-batching"
     if a[3] != b[3] and a[7] == b[7]:
         return "replay"
     if a[7] != b[7]:
